@@ -432,6 +432,25 @@ func init() {
 		Rule: "1-3 goroutines push 1-10 change sets each (1-4 creates/deletes per set, several levels, key ids, compression types, deletes of unknown tables) through the production addChanges with a rewrite threshold from {0,1,3,10,1000} so that automatic rewrites happen; then (1) the in-memory table map and ReplayManifestFile of the file must equal the model after the last set; (2) the file is cut at EVERY byte of the last <=4 change sets: replay must succeed and equal the model after the last set wholly before the cut; (3) one bit is flipped at EVERY byte of the same region: replay must fail or leave the state after some complete set, never anything else. evaluations = change-set histories; non-trivial = history with >=1 appended (not rewritten-away) change set",
 		Real: []string{"manifest.go: helpOpenOrCreateManifestFile, addChanges, rewrite, ReplayManifestFile (real code, tag verif)"}, Stubs: []string{"the table files themselves (the MANIFEST code never opens them)", "goroutine scheduling"},
 	})
+	// C16 log records
+	p16 := profT("L-C16")
+	p16.MinClients, p16.MaxClients, p16.MaxOps = 1, 3, 14
+	p16.WIter, p16.WGet = 0, 1
+	p16.WSet, p16.WDel = 8, 3
+	p16.WBatch = 2
+	p16.TTL, p16.Discard, p16.Encrypt = true, true, true
+	p16.Groups = [][]string{nil}
+	register(&Scenario{Prop: "C16", Family: "L", Level: "fault_enumeration", Profile: p16,
+		Gen: func(t *rapid.T) *Case {
+			c := GenCase(t, p16)
+			c.Cfg.Prefill = rapid.SampledFrom([]int{0, 20, 50}).Draw(t, "prefill16")
+			c.Cfg.MemTableSize = 64 << 10 // keep everything in the first WAL
+			return c
+		},
+		Run:  func(t *testing.T, c *Case, keep bool) Outcome { return ExecuteLogs(t, c, p16, keep) },
+		Rule: "short histories (transactions and write batches, values on both sides of the value threshold, user meta, TTL, discard flag, deletes; plain and with 16/24/32-byte encryption keys) produce a WAL and value-log files; the directory is imaged before Close and (a) every .mem and .vlog file is iterated with the production logFile.iterate: every delivered record must equal the write of the model at that key+version (value bytes, directly or through its value pointer into the value-log image, user meta, expiry, delete/discard bits), transactions are delivered complete and in commit order; (b) one byte is flipped at EVERY position of the last 160 bytes of every log: no record that differs from a written one may be delivered and the delivered records must be a prefix of the intact delivery. evaluations = histories; non-trivial = history with >=2 verified records",
+		Real: []string{"memtable.go logFile (encodeEntry/iterate/decrypt), value.go write path, key registry (real code)"}, Stubs: stubsCommon,
+	})
 	// C04 own writes
 	p4 := profT("T-C04")
 	p4.WIter = 5
